@@ -38,34 +38,17 @@ theorem ka_is_half_timeout :
 
 /-! ## the switch statements (T) -/
 
-def q (s : String) : String := "\"" ++ s ++ "\""
-def rdFn : String := "Driver.handleReadCommands"
-def wrFn : String := "Driver.handleWriteCommands"
-def orEmpty : Option String → String
-  | some s => s
-  | none => ""
-
-/-- (function, enclosing case, case label, request struct, response struct) for every case the model has -/
-def modelRows : List (String × String × String × String × String) :=
-  [(rdFn, "", "<default>", "", "")] ++
-  readResources.map (fun r => (rdFn, "", q r, orEmpty (readMsgName r), orEmpty ((readMsgName r).map respName))) ++
-  [(wrFn, "", "<default>", orEmpty (wMsgName .custom), orEmpty ((wMsgName .custom).map respName))] ++
-  writeResources.map (fun r => (wrFn, "", q r, orEmpty (wMsgName (classifyW r)), orEmpty ((wMsgName (classifyW r)).map respName))) ++
-  [(wrFn, "/" ++ q Gen.drv_ResourceROSpecID, "<default>", "", "")] ++
-  (Act.all.filter (fun a => (idMsgName true a).isSome)).map
-    (fun a => (wrFn, "/" ++ q Gen.drv_ResourceROSpecID, q a.str, orEmpty (idMsgName true a), orEmpty ((idMsgName true a).map respName))) ++
-  [(wrFn, "/" ++ q Gen.drv_ResourceAccessSpecID, "<default>", "", "")] ++
-  (Act.all.filter (fun a => (idMsgName false a).isSome)).map
-    (fun a => (wrFn, "/" ++ q Gen.drv_ResourceAccessSpecID, q a.str, orEmpty (idMsgName false a), orEmpty ((idMsgName false a).map respName)))
-
-def extractedRows : List (String × String × String × String × String) :=
-  Gen.cmdCasesT.map (fun r => (r.fn, r.outer, r.labels, r.reqType, r.respType))
-
 /-- Every case of the two switch statements (label, request structure, response structure), as extracted from the
 source on this run, is a case of the model with the same structures, and the model has no other cases. -/
 theorem switch_matches_model :
     (∀ r ∈ extractedRows, r ∈ modelRows) ∧ (∀ r ∈ modelRows, r ∈ extractedRows) ∧
     extractedRows.length = modelRows.length := by decide
+
+/-- the two extractions of the switch statements (`readCmdCases`/`writeCmdCases` and `cmdCasesT`) list the same cases in
+the same order -/
+theorem cases_tables_agree :
+    (Gen.readCmdCases ++ Gen.writeCmdCases).map (fun r => (r.outer, r.labels)) = Gen.cmdCasesT.map (fun r => (r.outer, r.labels)) ∧
+    Gen.readCmdCases.length = (Gen.cmdCasesT.filter (fun r => r.fn == rdFn)).length := by decide
 
 /-- the labelled cases are exactly the names the model classifies as non-default (all strings) -/
 theorem read_default_iff (r : String) : readMsgName r = none ↔ r ∉ readResources := by
